@@ -982,11 +982,16 @@ package raft
 //@   modifies nothing
 
 //@ func (r *Raft) startStopReplication
-//@   trusted starts/stops replication goroutines for the latest configuration; touches only leaderState.replState and metrics
-//@   modifies r.leaderState.replState[*]
+//@   requires nonnil: r != nil && r.logger != nil && r.leaderState.replState != nil
+//@   requires index_range: r.lastLogIndex < MaxInt63 && r.lastSnapshotIndex < MaxInt63
+//@   modifies r.leaderState.replState[*], allof("H.followerReplication.")
+//@   at call (*raftState).goFunc#1 assert no_routine_for_itself: server.ID != r.localID
+//@   at call (*raftState).goFunc#1 assert new_routine_starts_after_the_leaders_tail_in_its_term: s.nextIndex == lastIdx + 1 && lastIdx == lastEntryIndex(r) && s.currentTerm == r.currentTerm && s.peer == server
+//@   at call (*raftState).goFunc#1 assert new_routine_reports_to_this_leaders_commitment: s.commitment == r.leaderState.commitment && s.stepDown == r.leaderState.stepDown && isfresh(s) && s.stopCh != nil && s.triggerCh != nil
+//@   at call (*Raft).observe#2 assert routine_stopped_only_for_a_server_outside_the_latest_configuration: !inConfig[serverID]
 
 //@ func (r *Raft) appendConfigurationEntry
-//@   requires nonnil: r != nil && future != nil && r.logs != nil && r.logger != nil && r.trans != nil && r.leaderState.commitment != nil && r.leaderState.inflight != nil && typeis(r.conf.v, Config)
+//@   requires nonnil: r != nil && future != nil && r.logs != nil && r.logger != nil && r.trans != nil && r.leaderState.commitment != nil && r.leaderState.inflight != nil && r.leaderState.replState != nil && typeis(r.conf.v, Config)
 //@   requires index_range: r.lastLogIndex + 1 < MaxInt63 && r.lastSnapshotIndex + 1 < MaxInt63
 //@   requires config_in_log: r.configurations.latestIndex <= lastEntryIndex(r)
 //@   requires is_leader: r.state == Leader
@@ -1592,3 +1597,91 @@ package raft
 //@   requires nonnil: c != nil
 //@   ensures  committed_copied: sameServers(result.committed, c.committed) && result.committedIndex == c.committedIndex
 //@   ensures  latest_copied: sameServers(result.latest, c.latest) && result.latestIndex == c.latestIndex
+
+// ---------------------------------------------------------------------------
+// C05/C07: a new leader tracks commitment from the first index of its own term, over the voters of
+// the latest configuration, with empty queues
+
+//@ extern container/list.New()
+//@   modifies listLen
+//@   fresh result
+//@   ensures  empty: result != nil && listLen[result] == 0 && (forall m *list.List :: m != result ==> listLen[m] == old(listLen[m]))
+
+//@ func (r *Raft) setupLeaderState
+//@   requires nonnil: r != nil
+//@   requires index_range: r.lastLogIndex < MaxInt63 && r.lastSnapshotIndex < MaxInt63
+//@   localonly
+//@   ensures  commit_tracking_starts_after_the_inherited_log: r.leaderState.commitment != nil && r.leaderState.commitment.startIndex == lastEntryIndex(r) + 1 && r.leaderState.commitment.commitIndex == 0
+//@   ensures  tracks_the_voters_of_the_latest_configuration: forall id ServerID :: dom(r.leaderState.commitment.matchIndexes, id) == isVoter(r.configurations.latest, id)
+//@   ensures  nothing_matched_yet: forall id ServerID :: r.leaderState.commitment.matchIndexes[id] == 0
+//@   ensures  commit_notifications_reach_the_leader_loop: r.leaderState.commitment.commitCh == r.leaderState.commitCh && r.leaderState.commitCh != nil
+//@   ensures  fresh_queues: r.leaderState.inflight != nil && listLen[r.leaderState.inflight] == 0 && r.leaderState.stepDown != nil && card(r.leaderState.notify) == 0 && card(r.leaderState.replState) == 0
+
+// ---------------------------------------------------------------------------
+// C10: bootstrap and the existing-state test
+
+//@ interface LogStore.StoreLog(log)
+//@   requires nonnil: log != nil
+//@   modifies this.has, this.ent, this.first, this.last
+//@   ensures  stored:  result == nil ==> this.has[log.Index] && this.ent[log.Index] == *log
+//@   ensures  others:  result == nil ==> forall i uint64 :: i != log.Index ==> this.has[i] == old(this.has[i]) && this.ent[i] == old(this.ent[i])
+//@   ensures  atomic:  result != nil ==> this.has == old(this.has) && this.ent == old(this.ent) && this.first == old(this.first) && this.last == old(this.last)
+
+//@ spec func durableTermSet(stable StableStore) bool = stable.hasu[content(keyCurrentTerm)] && stable.u64[content(keyCurrentTerm)] > 0
+
+//@ func HasExistingState
+//@   requires nonnil: logs != nil && stable != nil && snaps != nil
+//@   modifies nothing
+//@   ensures  a_recorded_term_is_state: result1 == nil && durableTermSet(stable) ==> result0
+//@   ensures  a_log_entry_is_state: result1 == nil && (exists i uint64 :: logs.has[i]) ==> result0
+//@   ensures  error_means_unknown: result1 != nil ==> !result0
+
+//@ func BootstrapCluster
+//@   requires nonnil: conf != nil && logs != nil && stable != nil && snaps != nil
+//@   localonly
+//@   ensures  refused_on_existing_state: (durableTermSet(stable) || (exists i uint64 :: old(logs.has[i]))) && old(durableTermSet(stable)) == durableTermSet(stable) ==> result != nil
+//@   ensures  existing_state_untouched: old(durableTermSet(stable)) ==> logs.has == old(logs.has) && logs.ent == old(logs.ent) && stable.u64 == old(stable.u64) && stable.hasu == old(stable.hasu)
+//@   ensures  invalid_configuration_changes_nothing: !validConfiguration(configuration) ==> result != nil && logs.has == old(logs.has) && stable.u64 == old(stable.u64) && stable.hasu == old(stable.hasu)
+//@   ensures  bootstrapped: result == nil ==> stable.hasu[content(keyCurrentTerm)] && stable.u64[content(keyCurrentTerm)] == 1 && logs.has[1] && logs.ent[1].Index == 1 && logs.ent[1].Term == 1 &&
+//@              (conf.ProtocolVersion >= 3 ==> logs.ent[1].Type == LogConfiguration) && (conf.ProtocolVersion < 3 ==> logs.ent[1].Type == LogRemovePeerDeprecated)
+//@   ensures  only_entry_one_written: forall i uint64 :: i != 1 ==> logs.has[i] == old(logs.has[i])
+//@   at call LogStore.StoreLog#1 assert term_recorded_before_the_entry: stable.hasu[content(keyCurrentTerm)] && stable.u64[content(keyCurrentTerm)] == 1
+
+// ---------------------------------------------------------------------------
+// C17: the remaining enqueueing API calls. Snapshot and BootstrapCluster use unbuffered queues: the
+// future is either handed to a run loop (sent once) or answered at once with ErrRaftShutdown.
+
+//@ func (r *Raft) Snapshot
+//@   requires nonnil: r != nil && r.userSnapshotCh != nil && r.shutdownCh != nil
+//@   localonly
+//@   ensures  a_future_of_its_own: typeis(result, *userSnapshotFuture) && isfresh(cast(result, *userSnapshotFuture)) && cast(result, *userSnapshotFuture).errCh != nil
+//@   ensures  queued_once_or_answered_shutdown: (sent(r.userSnapshotCh) == old(sent(r.userSnapshotCh)) + 1 && lastsent(r.userSnapshotCh) == cast(result, *userSnapshotFuture) && !cast(result, *userSnapshotFuture).responded) ||
+//@              (sent(r.userSnapshotCh) == old(sent(r.userSnapshotCh)) && cast(result, *userSnapshotFuture).responded && lastsent(cast(result, *userSnapshotFuture).errCh) == ErrRaftShutdown)
+
+//@ func (r *Raft) BootstrapCluster
+//@   requires nonnil: r != nil && r.bootstrapCh != nil && r.shutdownCh != nil
+//@   localonly
+//@   ensures  queued_once_or_refused: (typeis(result, *bootstrapFuture) && sent(r.bootstrapCh) == old(sent(r.bootstrapCh)) + 1 && lastsent(r.bootstrapCh) == cast(result, *bootstrapFuture) && cast(result, *bootstrapFuture).errCh != nil) ||
+//@              (typeis(result, errorFuture) && cast(result, errorFuture).err == ErrRaftShutdown && sent(r.bootstrapCh) == old(sent(r.bootstrapCh)))
+//@   ensures  carries_the_configuration: typeis(result, *bootstrapFuture) ==> sameServers(cast(result, *bootstrapFuture).configuration, configuration)
+
+//@ func (r *Raft) Shutdown
+//@   requires nonnil: r != nil && r.shutdownCh != nil
+//@   requires flag_follows_channel: r.shutdown ==> closed(r.shutdownCh)
+//@   localonly
+//@   ensures  marked_shut_down: r.shutdown
+//@   ensures  first_call_stops_the_server: !old(r.shutdown) ==> r.state == Shutdown && typeis(result, *shutdownFuture) && cast(result, *shutdownFuture).raft == r
+//@   ensures  shutdown_channel_closed: closed(r.shutdownCh)
+//@   ensures  later_calls_wait_for_nothing: old(r.shutdown) ==> typeis(result, *shutdownFuture) && cast(result, *shutdownFuture).raft == nil && r.state == old(r.state)
+
+//@ func (r *Raft) LeadershipTransfer
+//@   requires nonnil: r != nil && r.leadershipTransferCh != nil && r.shutdownCh != nil
+//@   localonly
+//@   ensures  old_protocol_refused: r.protocolVersion < 3 ==> typeis(result, errorFuture) && cast(result, errorFuture).err == ErrUnsupportedProtocol && sent(r.leadershipTransferCh) == old(sent(r.leadershipTransferCh))
+//@   ensures  queued_future_has_shutdown_escape: typeis(result, *leadershipTransferFuture) ==> cast(result, *leadershipTransferFuture).ShutdownCh == r.shutdownCh && cast(result, *leadershipTransferFuture).ID == nil && cast(result, *leadershipTransferFuture).Address == nil
+
+//@ func (r *Raft) LeadershipTransferToServer
+//@   requires nonnil: r != nil && r.leadershipTransferCh != nil && r.shutdownCh != nil
+//@   localonly
+//@   ensures  old_protocol_refused: r.protocolVersion < 3 ==> typeis(result, errorFuture) && cast(result, errorFuture).err == ErrUnsupportedProtocol && sent(r.leadershipTransferCh) == old(sent(r.leadershipTransferCh))
+//@   ensures  names_the_requested_server: typeis(result, *leadershipTransferFuture) ==> cast(result, *leadershipTransferFuture).ShutdownCh == r.shutdownCh && cast(result, *leadershipTransferFuture).ID != nil && *cast(result, *leadershipTransferFuture).ID == id && *cast(result, *leadershipTransferFuture).Address == address
